@@ -20,13 +20,13 @@ type Monitor interface {
 
 type BaseMon struct{ exercised bool }
 
-func (b *BaseMon) OnReq(*World, *Req)       {}
-func (b *BaseMon) OnPassEnd(*World, *Pass)  {}
-func (b *BaseMon) OnStep(*World)            {}
-func (b *BaseMon) OnQuiescent(*World, int)  {}
-func (b *BaseMon) OnEnd(*World)             {}
-func (b *BaseMon) Exercised() bool          { return b.exercised }
-func (b *BaseMon) touch()                   { b.exercised = true }
+func (b *BaseMon) OnReq(*World, *Req)      {}
+func (b *BaseMon) OnPassEnd(*World, *Pass) {}
+func (b *BaseMon) OnStep(*World)           {}
+func (b *BaseMon) OnQuiescent(*World, int) {}
+func (b *BaseMon) OnEnd(*World)            {}
+func (b *BaseMon) Exercised() bool         { return b.exercised }
+func (b *BaseMon) touch()                  { b.exercised = true }
 
 // ---- shared helpers for monitors ---------------------------------------------------
 
